@@ -102,8 +102,11 @@ func (e *Engine) Digest(res *RunResult) string {
 	hashDep := e.plan != nil && e.plan.Flags.HashDep
 	for i := 0; i < total; i++ {
 		ev := &e.evs[i]
-		if hashDep && ev.Kind == EvIterItem {
-			continue
+		if hashDep {
+			// key hashes (runtime.memhash) differ per process: the order in which
+			// shards are visited, and with it the order of callbacks inside one
+			// Clear/IterValues, is not part of the replayable behaviour
+			break
 		}
 		mix(ev.Seq)
 		mix(uint64(ev.T))
